@@ -194,6 +194,15 @@ def build_instance(name, p):
         # preferred=False only keeps products that already are in preferred order (4x, 8y^4) from commuting;
         # a product whose left factor is not a constant and whose right factor is not a variable power still commutes
         return inst("CS0", ("*", a, b), m_same_operands_changed)
+    if name == "CS0-term-refuse":
+        # with preferred=False a term already in preferred order (4x, 8y^4) does not commute ...
+        t = term(abs(k1) if k1 is not None else 4, v, None if p["i"] % 2 else (m if isinstance(m, int) and m >= 2 else 4))
+        return inst("CS0", t, None, contexts=["HOLE", ("+", "HOLE", C(7)), ("+", V("w"), "HOLE"), ("neg", "HOLE"), ("=", "HOLE", C(1))], refuse=True)
+    if name == "CS0-term-in-product":
+        # ... unless it sits inside a larger product whose other factor is a product too: 12x * 10y -> (x * 12) * 10y
+        t1 = term(abs(k1) if k1 is not None else 12, v, None if p["i"] % 2 else 4)
+        t2 = term(abs(k2) if k2 is not None else 10, w)
+        return inst("CS0", ("*", t1, t2), lambda res, lhs: None if (norm(res) == norm(lhs[1]) and res != lhs[1]) else "the inner term was not commuted", target="L")
     if name == "CS-chain":
         op = "+" if rl % 2 else "*"
         return inst("CS1", (op, (op, a, b), c), m_same_operands_changed)
@@ -368,7 +377,7 @@ def _sum_folded(res, lhs, k1, k2):
 
 
 SCHEMAS = [
-    "CS-add", "CS-mul", "CS0-mul", "CS-chain", "CS-flip", "CS-refuse", "AG-left", "AG-right", "AG-both", "AG-refuse", "CA-simple", "CA-neg", "CA-sibling", "CA-alt", "CA-refuse",
+    "CS-add", "CS-mul", "CS0-mul", "CS0-term-refuse", "CS0-term-in-product", "CS-chain", "CS-flip", "CS-refuse", "AG-left", "AG-right", "AG-both", "AG-refuse", "CA-simple", "CA-neg", "CA-sibling", "CA-alt", "CA-refuse",
     "DF-simple", "DF-chained-left", "DF-chained-right", "DF-constants", "DF-constants-refuse", "DF-refuse", "DM-right", "DM-left", "DM-refuse", "MI", "MI-neg",
     "MI-refuse", "RS-sub", "RS-sub-const", "RS-sub-term", "RS-sub-quotient", "RS-sub-negconst", "RS-sub-negvar", "RS-sub-negterm", "RS-add-negconst", "RS-add-negterm", "RS-refuse",
     "VM", "VM-refuse", "BM-add", "BM-add3", "BM-mul", "BM-refuse", "CA-zero",
@@ -391,7 +400,7 @@ def params(draw, name):
         if name == "CS0-mul":
             p["A"] = draw(S.atom().filter(lambda x: x[0] != "c"))
             p["B"] = draw(S.atom().filter(lambda x: norm(x) != norm(p["A"]) and not (x[0] == "^" and x[1][0] == "v" and x[2][0] == "c")))
-        if name == "CS-chain":
+    if name == "CS-chain":
             p["G"] = draw(S.atom().filter(lambda x: norm(x) != norm(p["B"])))
     elif name.startswith("MI") or name.startswith("RS") or name.startswith("BM") or name in ("DF-chained-left", "DF-chained-right", "CA-alt"):
         p["A"], p["B"] = draw(S.anyexp()), draw(S.anyexp().filter(lambda a: a[0] != "neg"))
